@@ -103,3 +103,24 @@ Print Assumptions flate_reader_independent_of_schedule_and_source_script.
 Theorem flate_class_depends_on_source_kind_D10 : ~ flate_impl_refines_rfc1951_statement.
 Proof. exact flate_impl_refines_rfc1951_refuted. Qed.
 Print Assumptions flate_class_depends_on_source_kind_D10.
+
+(* KNOWN FINDING D11 inside Coq: the implementation-level model of bzip2.Reader (Bzip2/Impl.v,
+   per-call correspondence WBZIMPL) on the 32-byte witness: libbzip2 (the port) reports a data
+   error, and so does the Reader over a source that has everything buffered; over a ReadByte-only
+   source the Reader reports io.ErrUnexpectedEOF - the error class depends on the source kind *)
+From V Require Bzip2.Impl Bzip2.ImplExamples.
+Module D11.
+Import Bzip2.Common Bzip2.SpecR Bzip2.Impl Bzip2.ImplExamples.
+Theorem bzip2_class_depends_on_source_kind_D11 :
+  bz_err (bzip2_decode ex_over_request) = Some ECorrupted /\
+  map (fun o => (bo_bytes o, bo_err o))
+      (fst (bz_run (bz_new ex_over_request true [100%nat; 100%nat; 100%nat] []) [4096]%nat))
+    = [([], Some ECorrupted)] /\
+  map (fun o => (bo_bytes o, bo_err o))
+      (fst (bz_run (bz_new ex_over_request false [] []) [4096]%nat))
+    = [([], Some EUEOF)].
+Proof.
+  exact (conj ex_over_request_spec (conj ex_over_request_buffered ex_over_request_bytereader)).
+Qed.
+Print Assumptions bzip2_class_depends_on_source_kind_D11.
+End D11.
